@@ -33,6 +33,13 @@ for kind, prefix, word, fname, offset, rnd in WAVES[wave]:
             d = json.loads(conf.read_text())
             ok = d["applies"] == 0 and d["demo_clean_exit"] == 0 and "157 passed" in d["suite"] and "3 failed" in d["suite"]
             ok = ok and ((d["demo_changed_exit"] != 0) if kind == "mut" else (d["demo_changed_exit"] == 0))
+            stale = False
+            if not ok and kind == "ref" and d["applies"] == 0 and "157 passed" in d["suite"] and "3 failed" in d["suite"]:
+                # the demonstration hard-codes values recorded before a later `fix:` commit: accepted when its complete output
+                # is byte-identical on the clean and on the refactored tree
+                a, b = Path(f"/tmp/seed_confirm/{prefix}{P}_{K}.clean.log"), Path(f"/tmp/seed_confirm/{prefix}{P}_{K}.mut.log")
+                if a.exists() and b.exists() and a.read_bytes() == b.read_bytes() and a.stat().st_size > 0:
+                    ok = stale = True
             if not ok:
                 skipped.append((f"{prefix} {P}-{K}", f"confirmation negative: {d}"))
                 continue
@@ -50,6 +57,8 @@ for kind, prefix, word, fname, offset, rnd in WAVES[wave]:
                                      "full test suite on changed tree, worktree removed",
                               "patch_applies": True, "demo_exit_clean_tree": d["demo_clean_exit"], "demo_exit_changed_tree": d["demo_changed_exit"],
                               "suite_on_changed_tree": d["suite"]},
+                **({"note": "the demonstration's recorded expectations predate a later fix: commit of /repo; accepted because its complete "
+                            "output is byte-identical on the clean and on the refactored tree"} if stale else {}),
                 "run_demo": "cd <tree with the patch applied> && /venv/bin/python -W ignore <path>/demo.py   "
                             + ("(exits non-zero with the patch, 0 without)" if kind == "mut" else "(exits 0 with and without the patch)"),
             }
